@@ -200,10 +200,16 @@ def _canon_qc(qc, depth):
     find = qc.find_bit
     for inst in qc.data:
         op = inst.operation
-        ops.append([op.name,
-                    [_canon_param(p) for p in op.params],
-                    [find(q).index for q in inst.qubits],
-                    [find(c).index for c in inst.clbits]])
+        entry = [op.name,
+                 [_canon_param(p) for p in op.params],
+                 [find(q).index for q in inst.qubits],
+                 [find(c).index for c in inst.clbits]]
+        if not _is_standard(op.name):
+            # a composite (user-defined) gate: its NAME does not determine its meaning, its definition does
+            d = getattr(op, "definition", None)
+            if d is not None and _is_qc(d) and depth < MAX_DEPTH - 2:
+                entry.append(_canon_qc(d, depth + 1))
+        ops.append(entry)
     return {"t": "qc",
             "nq": qc.num_qubits, "nc": qc.num_clbits,
             "qregs": _norm_regs(qc.qregs),
@@ -218,14 +224,30 @@ def _canon_qc(qc, depth):
 _GATES = None
 
 
-def _gate(name, params, nq):
+def _std():
     global _GATES
-    from qiskit.circuit import Barrier
     if _GATES is None:
         from qiskit.circuit.library.standard_gates import get_standard_gate_name_mapping
         _GATES = get_standard_gate_name_mapping()
+    return _GATES
+
+
+def _is_standard(name):
+    return name == "barrier" or name in _std()
+
+
+def _gate(name, params, nq, definition=None):
+    from qiskit.circuit import Barrier
+    _std()
     if name == "barrier":
         return Barrier(nq)
+    if definition is not None:
+        sub = _rebuild_qc(definition)
+        if sub.num_clbits or params:
+            raise Unrebuildable("composite instruction with clbits / params")
+        g = sub.to_gate()
+        g.name = name
+        return g
     g = _GATES.get(name)
     if g is None:
         raise Unrebuildable(f"gate {name}")
@@ -395,8 +417,9 @@ def _rebuild_qc(c):
         raise Unrebuildable("registers")
     qc.global_phase = _rebuild_param(c["gp"])   # always through the setter: preserves -0.0 as well
     nq = c["nq"]
-    for name, params, qs, cs in c["ops"]:
-        g = _gate(name, [_rebuild_param(p) for p in params], len(qs))
+    for entry in c["ops"]:
+        name, params, qs, cs = entry[:4]
+        g = _gate(name, [_rebuild_param(p) for p in params], len(qs), entry[4] if len(entry) > 4 else None)
         qc.append(g, qs, cs)
     md = rebuild(c["md"])
     if isinstance(md, dict):
